@@ -83,7 +83,8 @@ def gen_getrel(rng, n):
             p = tuple(rng.choice(NAMES) for _ in range(rng.randint(1, 4)))
             for k in range(1, len(p) + 1):
                 nodes.add(p[:k])
-        nodes = sorted(nodes, key=lambda p: (rng.random()))
+        nodes = sorted(nodes)
+        rng.shuffle(nodes)
         bases = {}
         for i, s in enumerate(nodes):
             cand = nodes[:i]
@@ -187,7 +188,7 @@ def getrel_script(c):
 # suite history: generators
 # ==========================================================================
 PLACES = ["self", "cells", "child", "child_cells", "gchild_cells", "outside", "outside_cells", "ancestor", "ancestor_cells"]
-TAILS = ["none", "modechange", "rebase", "roundtrip", "zip", "item_def", "item_der", "retarget"]
+TAILS = ["none", "modechange", "rebase", "roundtrip", "zip", "item_def", "item_der", "retarget", "chain", "chain_item"]
 DEF_CHAIN = ["A", "B", "C"]
 DER_CHAIN = ["E", "F", "D"]
 
@@ -256,6 +257,17 @@ def grid_raw(ddef, dder, mode, place, level, derive, order, tail):
                 ["addb", list(deriver), [list(O)]], ["obs"], ["rmb", list(deriver), [list(O)]], ["obs"]]
     elif tail in ("roundtrip", "zip"):
         ops += [["roundtrip", "dir" if tail == "roundtrip" else "zip"], ["obs"]]
+    elif tail in ("chain", "chain_item"):
+        # a second derivation step: Z derives from the deriver (C10_static_chain)
+        Z = ("Z",)
+        zs = [["space", list(Z), []], ["space", list(Z + ("Ch",)), []], ["space", list(Z + ("Ch", "G")), []]]
+        inner = [["addb", list(Z + ("Ch", "G")), [list(D + ("Ch", "G"))]], ["addb", list(Z + ("Ch",)), [list(D + ("Ch",))]]]
+        outer = [["addb", list(Z), [list(D)]]]
+        ops += zs + (inner + outer if level == "top" else outer + inner) + [["obs"]]
+        if tail == "chain_item":
+            ops += [["params", list(Z)], ["obs"]]
+        else:
+            ops += [["rmb", list(deriver), [list(definer)]], ["obs"], ["addb", list(deriver), [list(definer)]], ["obs"]]
     elif tail == "item_def":
         ops += [["params", list(P)], ["obs"]]
     elif tail == "item_der":
